@@ -568,6 +568,9 @@ func (t *Thread) binop(op token.Token, x, y Value, xt types.Type, pos token.Pos)
 	if bt != nil && bt.Info()&types.IsString != 0 {
 		switch op {
 		case token.ADD:
+			if a.IsConst && b.IsConst {
+				return ts.BV(32, uint64(e.eng.intern(e.eng.strOf(uint32(a.C))+e.eng.strOf(uint32(b.C)))))
+			}
 			return ts.UF("str_concat", StrSort, a, b)
 		}
 		e.unsupported("string binop " + op.String() + " at " + t.posOf(pos))
